@@ -29,6 +29,9 @@ class Prop:
     def shrink_field(self, stream):
         """index of the string field to shrink, or None"""
         return 0
+    def same(self, stream, model, impl):
+        """do the model's and the implementation's records agree?"""
+        return model == impl
 
 def check_proof(prop):
     """PROOF_OK: cone builds, assumptions closed, nothing forbidden."""
@@ -84,7 +87,7 @@ def eval_cases(prop, stream, cases):
             why = "implementation differs from the specified result for this input"
         if why:
             fails.append((cid, fields, "oracle", why, m, im))
-        elif m != im:
+        elif not prop.same(stream, m, im):
             fails.append((cid, fields, "correspondence", "model and implementation differ", m, im))
         if prop.nontrivial(stream, fields, im):
             nontriv.add((stream,) + tuple(fields))
@@ -107,7 +110,7 @@ def shrink(prop, stream, fields, kind):
             if kind == "oracle":
                 if prop.oracle(stream, cases[i][1], im): return c
             else:
-                if m != im and not prop.oracle(stream, cases[i][1], im): return c
+                if not prop.same(stream, m, im) and not prop.oracle(stream, cases[i][1], im): return c
         return None
     for _ in range(40):
         if len(cur) <= 1: break
@@ -268,5 +271,5 @@ def run_replay(prop, path):
     print("model :", m)
     print("impl  :", im)
     print("oracle:", why or "holds")
-    print("corr  :", "agree" if m == im else "DIFFER")
-    return 1 if (why or m != im) else 0
+    print("corr  :", "agree" if prop.same(obj["stream"], m, im) else "DIFFER")
+    return 1 if (why or not prop.same(obj["stream"], m, im)) else 0
